@@ -139,6 +139,9 @@ def patched(noise=None, complex_objects=False):
 
         def ict(dtype):
             if not isinstance(dtype, dict) and dtype == object:
+                import sys
+                if sys._getframe(1).f_code.co_name == "_special_add_at":
+                    return False        # its complex branch only re-views complex numbers as pairs of reals (substrate detail)
                 return True
             return old_ict(dtype)
         for mn in ("nifty.cl.utilities", "nifty.cl.operators.diagonal_operator", "nifty.cl.operators.energy_operators",
@@ -510,3 +513,36 @@ def eq_status(a, b, **kw):
     """decide a == b; the tolerance for float-literal rounding is relative to |a| + |b|"""
     a, b = sp.sympify(a), sp.sympify(b)
     return zero_status(a - b, scale_exprs=(a, b), **kw)
+
+
+@contextlib.contextmanager
+def patched_bincount():
+    """nifty.cl.utilities._special_add_at calls np.bincount(index, weights, minlength), which cannot take object weights:
+    inside this context the module's `np` is a proxy whose bincount has the defining meaning out[b] = sum_{p: index[p]==b} w[p]
+    for object arrays (A-NUMPY: that *is* bincount's documented meaning) and is NumPy's own otherwise."""
+    import nifty.cl.utilities as ut
+    real_np = ut.np
+
+    class _NP:
+        def __getattr__(self, name):
+            return getattr(real_np, name)
+
+        @staticmethod
+        def bincount(index, weights=None, minlength=0):
+            idx = real_np.asarray(getattr(index, "_val", index))
+            w = None if weights is None else real_np.asarray(getattr(weights, "_val", weights))
+            if w is None or w.dtype != object:
+                return real_np.bincount(idx, w, minlength)
+            n = max(int(minlength), int(idx.max()) + 1 if idx.size else 0)
+            out = real_np.zeros(n, dtype=object)
+            for p in range(idx.size):
+                out[idx[p]] = out[idx[p]] + w[p]
+            if hasattr(weights, "_val"):
+                from nifty.cl.any_array import AnyArray
+                return AnyArray(out)
+            return out
+    ut.np = _NP()
+    try:
+        yield
+    finally:
+        ut.np = real_np
